@@ -132,6 +132,75 @@ func c20Hash(c *Ctx) {
 		}
 		r.Check(ok, "C20/R1", "types.CalcStartReInitDKGMessageHash:covers:"+k, "field "+k+" is written into the hash for every element / on every path", c.PosOf(must), detail)
 	}
+	// the fields are delimited: what is hashed must determine the message. A plain concatenation of variable-length fields
+	// gives the same bytes for different messages (bytes moved across a field boundary), and this hash is all that
+	// authenticates a reinit message. Required: before each field's bytes go into the buffer, the field's length is
+	// computed and something is written (its length), and the element count of each list is used as data.
+	var undelimited []string
+	for _, k := range want {
+		if k == "Threshold" || k == "Messages.Offset" {
+			continue // rendered as a decimal number: delimited once the field itself is (its own length is written)
+		}
+		for _, w := range have[k] {
+			fieldArg := w.Common().Args[len(w.Common().Args)-1]
+			fp := ssax.Path(fieldArg)
+			okD := false
+			ssax.Instrs(fn, func(in ssa.Instruction) {
+				lc, isCall := in.(*ssa.Call)
+				if !isCall {
+					return
+				}
+				if b, isB := lc.Common().Value.(*ssa.Builtin); !isB || b.Name() != "len" || ssax.Path(lc.Common().Args[0]) != fp {
+					return
+				}
+				// every path to the field's write passes this len(), and between the two something is written into the buffer
+				if ssax.ReachableAvoiding(fn, w.(ssa.Instruction), nil, []ssa.Instruction{lc}) {
+					return
+				}
+				for _, other := range ssax.Calls(fn, false, func(ci ssa.CallInstruction) bool {
+					id := ssax.FuncID(ssax.CalleeObj(ci))
+					return id == "bytes.(Buffer).Write" || id == "bytes.(Buffer).WriteString"
+				}) {
+					if other != w && !ssax.ReachableFrom(fn, lc, w.(ssa.Instruction), nil, []ssa.Instruction{other.(ssa.Instruction)}) {
+						okD = true
+					}
+				}
+			})
+			if !okD {
+				undelimited = append(undelimited, k)
+			}
+		}
+	}
+	for _, list := range []string{"Participants", "Messages"} {
+		asData := false
+		ssax.Instrs(fn, func(in ssa.Instruction) {
+			lc, isCall := in.(*ssa.Call)
+			if !isCall || lc.Referrers() == nil {
+				return
+			}
+			if b, isB := lc.Common().Value.(*ssa.Builtin); !isB || b.Name() != "len" {
+				return
+			}
+			if p := ssax.Path(lc.Common().Args[0]); !(strings.HasPrefix(p, "json(") && strings.HasSuffix(p, ")."+list)) {
+				return
+			}
+			for _, ref := range *lc.Referrers() {
+				if bo, isBo := ref.(*ssa.BinOp); isBo && (bo.Op == token.LSS || bo.Op == token.GTR || bo.Op == token.LEQ || bo.Op == token.GEQ) {
+					continue // loop bound
+				}
+				if _, dbg := ref.(*ssa.DebugRef); dbg {
+					continue
+				}
+				asData = true
+			}
+		})
+		if !asData {
+			undelimited = append(undelimited, "len("+list+")")
+		}
+	}
+	sort.Strings(undelimited)
+	r.Check(len(undelimited) == 0, "C20/R1", "types.CalcStartReInitDKGMessageHash:delimited", "every variable-length field goes into the hash together with its length, every list together with its element count", c.Pos(fn.Pos()),
+		"not delimited: "+strings.Join(uniqStr(undelimited), ", ")+" — different reinit messages (a key moved into a neighbour's unused field, a recipient merged into a signature) produce the same confirmation hash, so the poster can rebind communication keys under the hash the operators agreed on")
 	// no filter: every branch is a loop bound or an error test of a call
 	var odd []string
 	for _, cd := range ssax.Conds(fn) {
